@@ -1,24 +1,33 @@
 #!/usr/bin/env python3
-"""Apply every kept behaviour-preserving refactoring set (refactors/<id>/patch.diff) to /repo in turn, run ALL twenty quick checks, undo, and record the outcome in
-refactors/RESULTS.md.  Any VIOLATION here is a false alarm of the machinery; undecided obligations are listed.  Developer tool, not a registered command."""
-import os, re, subprocess, sys
+"""Apply every kept behaviour-preserving refactoring set (refactors/<id>/patch.diff) in turn to a scratch worktree of /repo (HEAD), run ALL twenty quick checks against that tree
+(LVC_REPO), undo, and record the outcome in refactors/RESULTS.md.  Any VIOLATION here is a false alarm of the machinery; undecided obligations are listed.  W workers (default 4),
+one scratch worktree under /tmp each (removed at the end); /repo itself is never touched.  Developer tool, not a registered command."""
+import os, re, shutil, subprocess, sys
+from concurrent.futures import ThreadPoolExecutor
 ROOT = os.path.dirname(os.path.dirname(os.path.abspath(__file__)))
+# the checks run from a snapshot of /verif taken now (so the machinery can be edited while this runs); results are written to the real tree
+SNAP = f"/tmp/lvc_snap_{os.getpid()}"
+subprocess.run(["rsync", "-a", "--delete", "--exclude", ".git", "--exclude", "replays", "--exclude", ".venv", "--exclude", "seeded", "--exclude", "refactors", ROOT + "/", SNAP + "/"], check=True)
+os.symlink(os.path.join(ROOT, ".venv"), os.path.join(SNAP, ".venv"))
 ids = sorted(d for d in os.listdir(os.path.join(ROOT, "refactors")) if os.path.isdir(os.path.join(ROOT, "refactors", d)))
-only = sys.argv[1:]
+args = sys.argv[1:]
+W = 4
+if args and args[0].startswith("-j"):
+    W = int(args.pop(0)[2:])
+only = args
+ids = [i for i in ids if not only or i in only]
 CHECKS = [f"C{i:02d}" for i in range(1, 21)]
-rows = []
-for rid in ids:
-    if only and rid not in only:
-        continue
+
+
+def one(wt, rp, rid):
     patch = os.path.join(ROOT, "refactors", rid, "patch.diff")
-    assert subprocess.run(["git", "-C", "/repo", "status", "--porcelain"], capture_output=True, text=True).stdout.strip() == "", "/repo not clean"
-    if subprocess.run(["git", "-C", "/repo", "apply", patch]).returncode != 0:
-        rows.append((rid, "PATCH DOES NOT APPLY", "", ""))
-        continue
+    if subprocess.run(["git", "-C", wt, "apply", patch]).returncode != 0:
+        return (rid, "PATCH DOES NOT APPLY", "", "")
     viol, undec, total, disc = [], [], 0, 0
+    env = {**os.environ, "JAX_PLATFORMS": "cpu", "LVC_REPO": wt, "LVC_REPLAY_DIR": rp}
     try:
         for c in CHECKS:
-            r = subprocess.run([os.path.join(ROOT, "check"), c, "--no-evidence"], capture_output=True, text=True, cwd=ROOT, timeout=3600)
+            r = subprocess.run([os.path.join(SNAP, "check"), c, "--no-evidence", "--jobs", "6"], capture_output=True, text=True, cwd=SNAP, timeout=3600, env=env)
             viol += [f"{c}:{m}" for m in re.findall(r"VIOLATION property=\S+ replay=\S*/([^/\s]+)\.json", r.stdout)]
             undec += [f"{c}:{m.strip()[:90]}" for m in re.findall(r"UNDECIDED ([^\n]*)", r.stdout)]
             m = re.search(r"obligations=(\d+) discharged=(\d+)", r.stdout)
@@ -27,10 +36,29 @@ for rid in ids:
             if r.returncode == 3:
                 viol.append(f"{c}:CHECKER-ERROR")
     finally:
-        subprocess.run(["git", "-C", "/repo", "checkout", "--", "."], check=True)
-    rows.append((rid, "silent" if not viol else "FALSE ALARM", f"{disc}/{total} obligations discharged", "; ".join(viol + ["undecided " + u for u in undec]) or "-"))
-    print(rows[-1], flush=True)
-with open(os.path.join(ROOT, "refactors", "RESULTS.md"), "w") as f:
-    f.write("| refactoring set | all 20 quick checks | obligations | violations / undecided |\n|---|---|---|---|\n")
-    for row in rows:
-        f.write("| " + " | ".join(row) + " |\n")
+        subprocess.run(["git", "-C", wt, "checkout", "--", "."], check=True)
+    row = (rid, "silent" if not viol else "FALSE ALARM", f"{disc}/{total} obligations discharged", "; ".join(viol + ["undecided " + u for u in undec]) or "-")
+    print(row, flush=True)
+    return row
+
+
+def worker(w, mine):
+    wt, rp = f"/tmp/lvc_ref_wt{w}", f"/tmp/lvc_ref_rp{w}"
+    subprocess.run(["git", "-C", "/repo", "worktree", "remove", "--force", wt], capture_output=True)
+    subprocess.run(["git", "-C", "/repo", "worktree", "add", "--detach", wt, "HEAD"], check=True, capture_output=True)
+    try:
+        return [one(wt, rp, rid) for rid in mine]
+    finally:
+        subprocess.run(["git", "-C", "/repo", "worktree", "remove", "--force", wt], capture_output=True)
+        shutil.rmtree(rp, ignore_errors=True)
+
+
+parts = [ids[w::W] for w in range(W)]
+with ThreadPoolExecutor(W) as ex:
+    rows = sorted(r for part in ex.map(worker, range(W), parts) for r in part)
+if not only:
+    with open(os.path.join(ROOT, "refactors", "RESULTS.md"), "w") as f:
+        f.write("| refactoring set | all 20 quick checks | obligations | violations / undecided |\n|---|---|---|---|\n")
+        for row in rows:
+            f.write("| " + " | ".join(row) + " |\n")
+shutil.rmtree(SNAP, ignore_errors=True)
